@@ -96,18 +96,18 @@ def gen_ops(rng, quick, V):
                                 for lm in range(1, 8 if quick else 11):
                                     for ln in ((1, 3, 4) if quick else (1, 2, 3, 4, 5, 7)):
                                         add('bc-box', 'bc T 1 1 %d %d 0 0 %d %d %d %d %d %d %d %d %d' % (lm, ln, lm, ln, P, Q, kp, kq, ip, jq, V))
-    n_bc = (500 if quick else 6000) if V == 1 else (250 if quick else 2500)
+    n_bc = (500 if quick else 3000) if V == 1 else (250 if quick else 1000)
     for k in range(n_bc):
         r = rng.fork(k)
         tm = tm_random(r, not quick)
         g = grid_random(r)
         add('bc', 'bc %s %s %s %d' % (r.choice(['T', 'T', 'L']), ' '.join(map(str, tm)), ' '.join(map(str, g)), V))
-    for k in range((150 if quick else 2000) if V == 1 else (60 if quick else 600)):
+    for k in range((150 if quick else 1000) if V == 1 else (60 if quick else 300)):
         r = rng.fork(100000 + k)
         tm = tm_random(r, not quick)
         P, Q, kp, kq, ip, jq = grid_random(r)
         add('kv', 'kv %s %s %d %d %d %d %d %d %d' % (r.choice(['T', 'T', 'L']), ' '.join(map(str, tm)), P, Q, kp, kq, ip, jq, V))
-    for k in range((150 if quick else 2000) if V == 1 else (60 if quick else 600)):
+    for k in range((150 if quick else 1000) if V == 1 else (60 if quick else 300)):
         r = rng.fork(200000 + k)
         mb = r.range(1, 3)
         lt = r.range(1, 12 if quick else 28)
@@ -120,7 +120,7 @@ def gen_ops(rng, quick, V):
         while P * Q > 16:
             P, Q = r.range(1, 5), r.range(1, 5)
         add('sym', 'sym %s %d %d %d %d %d %d %d %d %d %d %d' % (r.choice(['U', 'L']), mb, mb, lm, lm, i, i, m, m, P, Q, V))
-    for k in range((120 if quick else 1500) if V == 1 else (40 if quick else 400)):
+    for k in range((120 if quick else 800) if V == 1 else (40 if quick else 200)):
         r = rng.fork(300000 + k)
         mb, nb = r.range(1, 3), r.range(1, 3)
         lmt, lnt = r.range(1, 10 if quick else 22), r.range(1, 10 if quick else 22)
@@ -132,7 +132,7 @@ def gen_ops(rng, quick, V):
         bs = r.range(1, 4)
         add('band', 'band %d %d %d %d %d %d %d %d %d %d %d %d %d %d %d %d %d %d' % (
             mb, nb, lmt * mb, lnt * nb, P, Q, kp, kq, ip, jq, bP, bQ, bkp, bkq, r.below(bP), r.below(bQ), bs, V))
-    for k in range((120 if quick else 1500) if V == 1 else (40 if quick else 400)):
+    for k in range((120 if quick else 800) if V == 1 else (40 if quick else 200)):
         r = rng.fork(400000 + k)
         mb, nb, lm, ln, i, j, m, n = tm_random(r, False)
         nodes = r.range(1, 9)
@@ -142,7 +142,7 @@ def gen_ops(rng, quick, V):
         vps = [r.below(V) for _ in range(cnt)]
         add('tab', 'tab %d %d %d %d %d %d %d %d %d %d %s' % (nodes, mb, nb, lm, ln, i, j, m, n, V, ' '.join(map(str, ranks + vps))))
     nhang = 0
-    for k in range((160 if quick else 2000) if V == 1 else (40 if quick else 300)):
+    for k in range((160 if quick else 1000) if V == 1 else (40 if quick else 200)):
         r = rng.fork(500000 + k)
         mb = r.range(1, 3)
         lmt = r.range(1, 30)
@@ -440,13 +440,13 @@ def run_batch(ctx, res, exe, V, ops, tag):
     env = {'ASAN_OPTIONS': 'detect_leaks=0', 'VERIF_SEED': str(ctx.seed)}
     if V != 1:
         env['HWLOC_SYNTHETIC'] = 'pack:%d core:1 pu:1' % V
-    return pv.differential(ctx, res, [exe, str(V)], 'pv_C20', env=env, stdin='\n'.join(ops) + '\n', tag=tag)
+    return pv.differential(ctx, res, [exe, str(V)], 'pv_C20', env=env, stdin='\n'.join(ops) + '\n', tag=tag, timeout=600 if ctx.quick else 3000)
 
 
 def shrink(ctx, exe, op, key):
     """greedy numeric shrinking of one failing op (same finding key), a few batched rounds"""
     cur = op
-    for _ in range(12):
+    for _ in range(8):
         w = cur.split()
         cands = []
         for k, x in enumerate(w):
@@ -525,6 +525,24 @@ def run(ctx, res, ops_override=None):
         o2, impl, model, stats = run_batch(ctx, res, ex, V, ops, ':V%d' % V)
         for k, v in st.items():
             dist['%s@V%d' % (k, V)] = dist.get('%s@V%d' % (k, V), 0) + v
+        # harness-side `!viol <category> <op> tile ...` lines: attach the op as the replayable case, one entry per (category, op)
+        keep, seen_hv = [], set()
+        for v in res.violations:
+            w = v.get('what', '')
+            cat = w.split(' ', 1)[0]
+            if 'case' not in v and cat in ('views-disagree', 'rank_of_key', 'data_of_key', 'vpid_of_key', 'tab-shared-buffer', 'op-timeout'):
+                opx = w.split(' ', 1)[1]
+                for sep in (' tile (', ' rank '):
+                    if sep in opx:
+                        opx = opx.split(sep)[0]
+                        break
+                kx = 'harness:%s:%s' % (cat, opx[:200])
+                if kx in seen_hv or len(seen_hv) >= 12:
+                    continue
+                seen_hv.add(kx)
+                v = {'key': kx, 'what': w, 'case': opx}
+            keep.append(v)
+        res.violations[:] = keep
         if len(o2) != len(ops):
             res.violations.append({'key': 'harness-stopped:V%d' % V, 'what': 'harness produced %d of %d results; first missing op: %s' % (len(o2), len(ops), ops[len(o2)] if len(o2) < len(ops) else None),
                                    'case': ops[len(o2)] if len(o2) < len(ops) else None})
@@ -538,6 +556,9 @@ def run(ctx, res, ops_override=None):
                     seen_keys[key]['count'] += 1
                     continue
                 v = {'key': key, 'what': '%s: %s' % (cat, text), 'case': o, 'count': 1}
+                if len(seen_keys) >= 40 and not key.startswith('F'):
+                    dist['violations_not_listed'] = dist.get('violations_not_listed', 0) + 1
+                    continue
                 seen_keys[key] = v
                 res.violations.append(v)
             if r not in ('rejected', 'bad-op') and ' | T ' in r:
@@ -548,7 +569,7 @@ def run(ctx, res, ops_override=None):
     exe = exe_san
     # shrink new (non-known) violations, a few only
     known = {k['key'] for k in pv.known_findings(PROP)}
-    for v in [v for v in res.violations if v['key'] not in known and v.get('case') and ':' in v['key']][:3]:
+    for v in [v for v in res.violations if v['key'] not in known and v.get('case') and ':' in v['key']][:2]:
         try:
             small = shrink(ctx, exe, v['case'], v['key'])
             if small != v['case']:
